@@ -303,6 +303,7 @@ class Collector:
         self.triples = {}       # cfg index -> {(pre, opkey, post, code): (op, seq)}
         self.found = {}         # key -> dict(msg, replay, count)
         self.nodes = 0
+        self.roundtrips = 0
         self.sane_disagree = 0
 
     def violation(self, key, msg, replay):
@@ -345,6 +346,38 @@ def do_step(col, ci, cfg, impl, pre, op, seq, record=True):
                            state_before=pre._asdict(), state_after=post._asdict(), evaluator=cls, message=msg))
         return post, code, False
     return post, code, True
+
+
+def canonical_poscar(sup):
+    """harness-written POSCAR text of a supercell (all species on the counts line, zeros included); only used to go on
+    exploring when the implementation's own text of the EMPTY supercell is already wrong (which is reported)"""
+    a = sup.lattice
+    t = "harness\n1.0\n" + "".join("%21.16f %21.16f %21.16f\n" % (a[0][k], a[1][k], a[2][k]) for k in range(3))
+    t += " ".join(str(len(l)) for l in sup.chemorder) + "\nDirect\n"
+    t += "\n".join(" %19.16f %19.16f %19.16f" % tuple(sup.pos[i]) for l in sup.chemorder for i in l)
+    return t + "\n"
+
+
+def start_impl(col, cfg):
+    """fresh machine; its initial observation must be the model's initial state.  A wrong POSCAR of the empty supercell is
+    reported (with the one-operation replay) and replaced by a harness-written text so that the exploration can go on;
+    objects that are not empty are reported and the cell is skipped (None)."""
+    impl = Impl(cfg)
+    pre, problems = impl.obs()
+    empty = ((-1,) * cfg.N, ((),) * cfg.Nchem)
+    if (pre.occ, pre.co) != empty or (pre.socc, pre.sco) != empty:
+        col.violation("c28-initial", "%s, Nsolute=%d: a new supercell is not empty" % (cfg.label, cfg.Nsolute),
+                      dict(cfg=cfg.spec(), ops=[], state_after=pre._asdict()))
+        return None
+    if problems or pre.clip != ((),) * cfg.Nchem:
+        col.violation("c28-poscar-write-empty", "%s, Nsolute=%d: POSCAR() of the empty supercell lists %r for %d declared species%s" %
+                      (cfg.label, cfg.Nsolute, pre.clip, cfg.Nchem, "; " + "; ".join(problems) if problems else ""),
+                      dict(cfg=cfg.spec(), ops=[["write"]], state_after=pre._asdict(), poscar_text=impl.clip, evaluator="poscar-write"))
+        impl.clip = canonical_poscar(impl.cur)
+        pre, problems = impl.obs()
+        if problems or pre.clip != ((),) * cfg.Nchem:
+            raise RuntimeError("harness POSCAR text is not read back by the harness reader")
+    return impl, pre
 
 
 def dfs(col, ci, cfg, impl, pre, depth, alphabet, seq):
@@ -447,9 +480,17 @@ def run_triples(ck, col, cfgs, chunk=1500):
             pyinv_post = all(py_inv(o, c_, cfg.N, cfg.Nchem) is None for o, c_ in ((post.occ, post.co), (post.socc, post.sco))) \
                          and clip_ok(post.clip, cfg.N, cfg.Nchem)
             if k in badpre:
-                raise RuntimeError("pre-state rejected by the verified invariant checker but accepted by the evaluator: %r" % (pre,))
+                col.violation("c28-invariant", "%s, Nsolute=%d: after %s the implementation is in a state that the verified invariant checker "
+                              "rejects (occ=%s chemorder=%s last POSCAR=%s)" % (cfg.label, cfg.Nsolute, [tuple(o) for o in seq], list(pre.occ),
+                                                                                 [list(l) for l in pre.co], pre.clip),
+                              dict(cfg=cfg.spec(), ops=[list(o) for o in seq], state_after=pre._asdict(), evaluator="Coq minvb"))
+                continue
             if (k in badpost) == pyinv_post:
-                raise RuntimeError("Coq invariant checker and Python evaluator disagree on %r" % (post,))
+                col.violation("c28-invariant", "%s, Nsolute=%d: after %s the verified invariant checker %s the state, the Python evaluator %s it" %
+                              (cfg.label, cfg.Nsolute, [tuple(o) for o in seq + [op]], "rejects" if k in badpost else "accepts",
+                               "accepts" if pyinv_post else "rejects"),
+                              dict(cfg=cfg.spec(), ops=[list(o) for o in seq + [op]], state_after=post._asdict(), evaluator="Coq minvb vs evaluator"))
+                continue
             if k in dd:
                 explained = (k not in ds)
                 key = vkey(cfg, op, "model-mismatch") if explained else "c28-model-mismatch"
@@ -499,11 +540,9 @@ def random_op(rng, cfg, impl, avoid_guard, wild):
 
 def random_trace(col, ci, cfg, rng, length, avoid_guard, wild=False):
     """one history from a fresh object; -> list of (op, observation after, outcome code)"""
-    impl = Impl(cfg)
-    pre, problems = impl.obs()
-    if pre != Obs((-1,) * cfg.N, ((),) * cfg.Nchem, (-1,) * cfg.N, ((),) * cfg.Nchem, ((),) * cfg.Nchem) or problems:
-        col.violation("c28-initial", "%s: a new supercell is not empty" % cfg.label, dict(cfg=cfg.spec(), state=pre._asdict()))
-        return []
+    st0 = start_impl(col, cfg)
+    if st0 is None: return []
+    impl, pre = st0
     trace, seq = [], []
     for _ in range(length):
         op = random_op(rng, cfg, impl, avoid_guard, wild)
@@ -624,7 +663,9 @@ def run(ck):
     scx = crystal.Crystal(np.eye(3), [np.zeros(3)])
     for what, ns, ops in WITNESSES:
         cfg = Cfg("sc-2x1x1", scx, np.diag([2, 1, 1]), (), ns)
-        impl = Impl(cfg); pre, _ = impl.obs(); seq = []
+        st0 = start_impl(col, cfg)
+        if st0 is None: continue
+        (impl, pre), seq = st0, []
         for op in ops:
             pre, code, ok = do_step(col, 100 + ns, cfg, impl, pre, op, seq, record=False); seq.append(op)
             if not ok: break
@@ -646,9 +687,37 @@ def run(ck):
     dfull, dred = (3, 4) if ck.quick else (4, 5)
     for ci, cfg in enumerate(cfgs):
         full, red = alphabets(cfg)
-        impl = Impl(cfg)
-        pre, problems = impl.obs()
+        st0 = start_impl(col, cfg)
+        if st0 is None: continue
+        impl, pre = st0
         n0 = col.nodes
+        # every occupation of the first two sites written, then read into the other (empty) object: covers every pattern of
+        # EMPTY species preceding occupied ones (empty interstitial sublattice + solute, only the second solute, vacated first sublattice)
+        for a in range(-1, cfg.Nchem):
+            for b in range(-1, cfg.Nchem):
+                rt = impl.clone(); rpre = pre; rseq = []
+                for op in [("set", 0, a), ("set", min(1, cfg.N - 1), b), ("write",), ("swap",), ("read",), ("write",)]:
+                    rpre, code, ok = do_step(col, ci, cfg, rt, rpre, op, rseq); rseq = rseq + [op]
+                    if not ok: break
+                else:
+                    if (rpre.occ, rpre.co) != (rpre.socc, rpre.sco):
+                        col.violation("c28-poscar-roundtrip", "%s, Nsolute=%d: after %s the supercell that read the POSCAR differs from the one "
+                                      "that wrote it" % (cfg.label, cfg.Nsolute, rseq), dict(cfg=cfg.spec(), ops=[list(o) for o in rseq], state_after=rpre._asdict()))
+                col.roundtrips += 1
+                # the same round trip evaluated directly (not stopped by an earlier finding): writer vs reader, occupation and ordering
+                dr = impl.clone()
+                ops = [("set", 0, a), ("set", min(1, cfg.N - 1), b), ("write",), ("swap",), ("read",)]
+                codes = [dr.apply(op)[0] for op in ops]
+                w_, r_ = dr.saved, dr.cur
+                wocc, rocc = [int(x) for x in w_.occ], [int(x) for x in r_.occ]
+                wco, rco = [list(map(int, l)) for l in w_.chemorder], [list(map(int, l)) for l in r_.chemorder]
+                if py_inv(wocc, wco, cfg.N, cfg.Nchem) is None and (codes[2:] != [0, 0, 0] or wocc != rocc or wco != rco):
+                    col.violation("c28-poscar-roundtrip", "%s, Nsolute=%d: supercell with occ=%s chemorder=%s (species counts %s) written with POSCAR() and "
+                                  "read with POSCAR_occ() into an empty supercell gives occ=%s chemorder=%s%s" %
+                                  (cfg.label, cfg.Nsolute, wocc, wco, [len(l) for l in wco], rocc, rco,
+                                   "" if codes[2:] == [0, 0, 0] else " (outcomes %s)" % [CODES[c_] for c_ in codes[2:]]),
+                                  dict(cfg=cfg.spec(), ops=[list(o) for o in ops], written=dict(occ=wocc, chemorder=wco), read=dict(occ=rocc, chemorder=rco),
+                                       poscar_text=dr.clip, evaluator="direct POSCAR -> POSCAR_occ round trip"))
         dfs(col, ci, cfg, impl, pre, dfull, full, [])
         if cfg.N <= 2 and (not ck.quick or ci in (0, 2, 3, 4)): dfs(col, ci, cfg, impl, pre, dred, red, [])
         ck.note("%s Nsolute=%d: alphabet %d/%d, %d operations executed, %d distinct transitions" %
@@ -714,6 +783,7 @@ def run(ck):
         ck.broken_proof = "correspondence Model/Supercell.step (histories): %s" % e
         ck.note("CORRESPONDENCE FAILED: " + str(e)[:1500])
     ck.extra["operations_executed"] = col.nodes
+    ck.extra["poscar_roundtrips_all_occupations"] = col.roundtrips
     col.flush()
     if hasattr(ck, "broken_proof") and ck.violations:
         # finish() reports a broken obligation only when nothing else was found; do not let a finding mask it
@@ -726,9 +796,12 @@ def replay(ck, path):
     doc = json.load(open(path))
     r = doc["replay"]
     cfg = Cfg.from_spec(r["cfg"])
-    impl = Impl(cfg)
-    pre, _ = impl.obs()
     col = Collector(ck)
+    st0 = start_impl(col, cfg)
+    if st0 is None:
+        for k, f in col.found.items(): print("VIOLATION reproduced [%s]: %s" % (k, f["msg"]))
+        return 1
+    impl, pre = st0
     seq = []
     for op in r["ops"]:
         op = tuple(op)
